@@ -931,6 +931,49 @@ def select_best_whenever_expanded(ctx: Ctx):
            construct="DecodingStrategy.post_decoder_hook:select-best-guard")
 
 
+def start_nodes_used_as_selected(ctx: Ctx):
+    """C12.d (callers) the node indices returned by `select_start_nodes` are forced as first actions AS SELECTED: the start
+    rule of each environment already confines them to that environment's feasible range (customers 1..N for depot problems,
+    pickups for PDP, ...).  Arithmetic on the returned indices at a call site (`% num_starts`, `+ 1`, ...) moves them out of
+    that range -- `% N` sends customer N of a depot problem to the depot, which the reset mask closes.  Every call site of
+    `.select_start_nodes(...)` / `select_start_nodes_fn(...)` in the package outside the definitions themselves: no arithmetic
+    operator between the call and the statement it belongs to."""
+    sites = 0
+    for mi in ctx.repo.modules.values():
+        parents = {}
+        for n in ast.walk(mi.tree):
+            for c in ast.iter_child_nodes(n):
+                parents[id(c)] = n
+        for n in ast.walk(mi.tree):
+            if not (isinstance(n, ast.Call) and isinstance(n.func, ast.Attribute) and n.func.attr in ("select_start_nodes", "select_start_nodes_fn")):
+                continue
+            if isinstance(n.func.value, ast.Call) and ast.unparse(n.func.value.func) == "super":
+                continue
+            # enclosing function
+            fn = n
+            arith = []
+            while id(fn) in parents and not isinstance(fn, (ast.FunctionDef, ast.AsyncFunctionDef)):
+                p_ = parents[id(fn)]
+                if isinstance(p_, ast.BinOp) and isinstance(p_.op, (ast.Mod, ast.Add, ast.Sub, ast.Mult, ast.FloorDiv, ast.Div)):
+                    arith.append(ast.unparse(p_)[:70])
+                if isinstance(p_, ast.stmt):
+                    fn = p_
+                    while id(fn) in parents and not isinstance(fn, (ast.FunctionDef, ast.AsyncFunctionDef)):
+                        fn = parents[id(fn)]
+                    break
+                fn = p_
+            fname = fn.name if isinstance(fn, (ast.FunctionDef, ast.AsyncFunctionDef)) else "<module>"
+            if fname == "select_start_nodes":
+                continue            # an override delegating to the generic helper adjusts its own rule (checked by start_nodes)
+            sites += 1
+            ctx.ob("C12.d", f"{mi.relpath}:{fname}:start-nodes-used-as-selected", not arith, f"{mi.relpath}:{n.lineno}",
+                   "the returned start nodes are forced unchanged" if not arith else
+                   f"arithmetic on the returned node indices: {arith[0]} -- the environment's start rule no longer confines them (a modulus sends the last customer of a depot problem to the depot)",
+                   construct=f"{fname}:start-nodes:arithmetic")
+    if sites < 3:
+        raise AnalysisError(f"select_start_nodes call sites lost: {sites} < 3")
+
+
 def run(ctx: Ctx):
     helpers(ctx)
     n1 = einops_sites(ctx)
@@ -940,6 +983,7 @@ def run(ctx: Ctx):
     drawn_start_nodes_layout(ctx)
     select_best_whenever_expanded(ctx)
     n3 = start_nodes(ctx)
+    start_nodes_used_as_selected(ctx)
     ctx.extra["einops_batch_groups"] = n1
     ctx.extra["arange_sites"] = n2
     ctx.extra["registered_envs_checked"] = n3
